@@ -79,7 +79,8 @@ def env_for_ctrl(ex, st, q, me=None):
 
 
 # ---- OutputAsync._event_put ---------------------------------------------------------------------------------------------------------------------
-@contract('OutputAsync._event_put', qual=Q + '_event_put', modifies=('dq_items',), self_cls='OutputAsync')
+@contract('OutputAsync._event_put', qual=Q + '_event_put', modifies=('dq_items',), self_cls='OutputAsync',
+          traced=lambda a, st: rec('_event_put', to_val(a['self'], st), kw=a['data'].arr))
 def _oa_put(c):
     me = c.z('self')
     q = c.pre('_queue', me)
@@ -562,3 +563,269 @@ def verify_ctrl_cancel(run):
                calls={'queue.get_nowait': cc_get_nowait, 'self._output_coro_wrapper': wrapper_coroutine_call, 'asyncio.create_task': oa_create_task,
                       'task.done': lambda ex, e, st: [(st, ZV('bool', st.readz('task_done', Val.ref(to_val(st.env['task'], st)))))]},
                hooks={'await': awaits({'queue.get()': cc_get, 'task': cc_await_task})})
+
+
+# ---- stop / stop_async / start -----------------------------------------------------------------------------------------------------------------------------
+def oa_eq_hook(ex, st, l, r):
+    """`self._ctrl_coro != self._ctrl_start`: the strategy kept in the field is a bound method of the block itself, identified by its name"""
+    for a, b in ((l, r), (r, l)):
+        if isinstance(a, PBound) and isinstance(b, ZV) and b.kind == 'str':
+            return b.z == StringVal('method:' + a.name)
+    return None
+
+
+def super_stop(ex, e, st):
+    st = st.copy(); ex.emit(st, rec('super.stop', to_val(st.env['self'], st)))
+    return [(st, P_NONE)]
+
+
+@contract('OutputAsync.stop', qual=Q + 'stop', modifies=('dq_items',), self_cls='OutputAsync')
+def _oa_stop(c):
+    me = c.z('self')
+    q = c.pre('_queue', me)
+    sd = c.pre('_stop_data', me)
+    c.requires('stop_data_is_none_or_a_dict', Or(sd == Val.VNone, And(Val.is_D(sd), Not(Opt.is_Some(dict_c(Val.dk(sd))[StringVal('self')])))))
+    c.requires('queue_holds_put_data_and_sentinels', items_wf(c.S, q))
+    start_mode = c.pre('_ctrl_coro', me) == StringVal('method:_ctrl_start')
+    queued = And(sd != Val.VNone, Not(start_mode))
+    arr, n = q_items(c.S, q); arr2, n2 = q_items(c.T, q)
+    j = Int('j!os')
+    c.ensures('stop_data_then_the_sentinel_are_queued_last',
+              And(n2 == n + If(queued, 2, 1), arr2[n2 - 1] == Val.VNone,
+                  Implies(queued, And(Val.is_D(arr2[n]), dict_c(Val.dk(arr2[n])) == dict_c(Val.dk(sd)))),
+                  ForAll([j], Implies(And(0 <= j, j < n), arr2[j] == arr[j]))))
+    if c.verifying:
+        def expected(k, r, st):
+            fn = z3.simplify(Rec.fn(r)).as_string()
+            if fn == '_event_put': return [('stop_data_first', k == 0)]
+            if fn == 'put_nowait': return [('then_the_sentinel', And(Rec.a0(r) == Val.VNone, k == If(queued, 1, 0)))]
+            if fn == 'super.stop': return [('then_the_inherited_stop', k == If(queued, 2, 1))]
+            return [('no_other_call', BoolVal(False))]
+        c.expect_trace(expected, 3, normal_len=If(queued, 3, 2), predicate=True)
+
+
+def await_ctrl_task(ex, node, st):
+    me = as_kind(st.env['self'], Ref(), st)
+    t = Val.ref(st.readz('_ctrl_task', me))
+    outs = []
+    for cls in (None, 'CancelledError', 'OtherException'):
+        s2 = env_for_ctrl(ex, st, st.readz('_queue', me), me); s2.assume(s2.readz('task_done', t))
+        s2.ghost['ctrl_awaited'] = True
+        if cls is None: outs.append((s2, P_NONE))
+        else:
+            s2.label(f'ctrl_task:{cls}')
+            outs.append((s2, Raise(PExc(cls, val=Val.Obj(fresh('exc', IntSort())), where='callee'))))
+    return outs
+
+
+def await_super_stop_async(ex, node, st):
+    st = st.copy(); ex.emit(st, rec('super.stop_async', to_val(st.env['self'], st)))
+    return [(st, P_NONE)]
+
+
+@contract('OutputAsync.stop_async', qual=Q + 'stop_async', modifies=WRAP_EFFECTS, self_cls='OutputAsync')
+def _oa_stop_async(c):
+    me = c.z('self')
+    sd = c.pre('_stop_data', me)
+    c.requires('stop_data_is_none_or_a_dict', Or(sd == Val.VNone, Val.is_D(sd)))
+    c.requires('configuration', oa_config(c.S, me))
+    c.requires('output_is_the_run_counter', Val.is_I(c.pre('_output', me)))
+    start_mode = c.pre('_ctrl_coro', me) == StringVal('method:_ctrl_start')
+    last_run = And(sd != Val.VNone, start_mode)
+    c.raises('OtherException', unchanged=False, label='the_control_task_failed')
+    c.raises('DeliveryError', unchanged=False, label='delivery_of_an_event_failed')
+    c.raises('CancelledError', unchanged=False, label='cancelled_during_the_last_run')
+    if c.verifying:
+        def expected(k, r, st):
+            fn = z3.simplify(Rec.fn(r)).as_string()
+            if fn == '_output_coro_wrapper':
+                return [('stop_data_processed_last_in_start_mode', And(k == 0, last_run, Rec.a0(r) == sd, BoolVal(st.ghost.get('ctrl_awaited') is True)))]
+            if fn == 'super.stop_async':
+                return [('inherited_cleanup_last', And(k == If(last_run, 1, 0), BoolVal(st.ghost.get('ctrl_awaited') is True)))]
+            return [('no_other_call', BoolVal(False))]
+        c.expect_trace(expected, 2, normal_len=If(last_run, 2, 1), predicate=True)
+
+
+def create_monitored_task(ex, e, st):
+    """self._create_monitored_task(coro, name=...) (contract: C09): a new task running the coroutine under the task monitor"""
+    outs = []
+    for s1, cv in ex.ev(e.args[0], st):
+        if isinstance(cv, Raise): outs.append((s1, cv)); continue
+        s1 = s1.copy(); t = fresh('task', IntSort())
+        ex.emit(s1, rec('create_monitored_task', Val.Obj(t), to_val(cv, s1)))
+        outs.append((s1, ZV('val', Val.Obj(t))))
+    return outs
+
+
+def ctrl_coro_call(ex, e, st):
+    """self._ctrl_coro(): the coroutine object of the selected strategy"""
+    me = as_kind(st.env['self'], Ref(), st)
+    return [(st, ZV('val', Val.S(st.readz('_ctrl_coro', me))))]
+
+
+def new_data_queue(ex, e, st):
+    st = st.copy(); q = fresh('dqueue', IntSort())
+    st.write('dq_items', q, PSeq(K(IntSort(), Val.VNone), IntVal(0), 'val', True))
+    st.write('dq_head', q, ZV('int', IntVal(0)))
+    return [(st, ZV('ref', q, 'DataQueue'))]
+
+
+def super_start(ex, e, st):
+    st = st.copy(); ex.emit(st, rec('super.start', to_val(st.env['self'], st)))
+    return [(st, P_NONE)]
+
+
+@contract('OutputAsync.start', qual=Q + 'start', modifies=('_queue', '_ctrl_task', 'dq_items', 'dq_head'), self_cls='OutputAsync')
+def _oa_start(c):
+    me = c.z('self')
+    q = c.post('_queue', me)
+    c.ensures('a_new_empty_queue', And(q_items(c.T, q)[1] == 0, q_head(c.T, q) == 0))
+    if c.verifying:
+        def expected(k, r, st):
+            fn = z3.simplify(Rec.fn(r)).as_string()
+            if fn == 'super.start': return [('inherited_start_first', k == 0)]
+            if fn == 'create_monitored_task':
+                return [('one_monitored_control_task_running_the_selected_strategy', And(k == 1, Rec.a0(r) == Val.S(c.pre('_ctrl_coro', me))))]
+            return [('no_other_call', BoolVal(False))]
+        c.expect_trace(expected, 2, normal_len=2, predicate=True)
+        c.ensures('control_task_remembered', Val.is_Obj(c.post('_ctrl_task', me)))
+
+
+def verify_stop_start(run):
+    H = {'eq': oa_eq_hook}
+    run.verify('OutputAsync.stop', cls='OutputAsync', calls={'super().stop': super_stop}, hooks=H)
+    run.verify('OutputAsync.stop_async', cls='OutputAsync', ghost={'ctrl_awaited': False, 'now': z3.Real('now0')},
+               hooks=dict(H, **{'await': awaits({'self._ctrl_task': await_ctrl_task, 'super().stop_async()': await_super_stop_async,
+                                                   '*': lambda ex, node, st: ex.ev(node, st)})}))
+    run.verify('OutputAsync.start', cls='OutputAsync',
+               calls={'super().start': super_start, 'asyncio.Queue': new_data_queue, 'self._create_monitored_task': create_monitored_task,
+                      'self._ctrl_coro': ctrl_coro_call})
+
+
+# ---- OutputAsync.__init__ (the parts the other contracts rely on) ------------------------------------------------------------------------------------------
+def opaque_helper(name, may_raise=None, result=None):
+    def h(ex, e, st):
+        outs = []
+        for s1, vals in ex.evs(e.args, st):
+            if isinstance(vals, Raise): outs.append((s1, vals)); continue
+            outs.append((s1, result(ex, s1, vals) if result else P_NONE))
+            if may_raise:
+                b = s1.copy(); b.label(f'{name}:raises')
+                outs.append((b, Raise(PExc(may_raise, val=Val.Obj(fresh('exc', IntSort())), where='callee'))))
+        return outs
+    return h
+
+
+event_tuple_of = Function('event_tuple_of', Val, IntSort())       # block.event_tuple(x) (contract: C02): a tuple of events
+
+
+def event_tuple_result(ex, st, vals):
+    k = event_tuple_of(to_val(vals[0], st))
+    j = Int('j!et')
+    st.assume(tup_len(k) >= 0, ForAll([j], Implies(And(0 <= j, j < tup_len(k)), Val.is_Obj(tup_item(k, j)))))
+    arr = z3.Lambda([j], tup_item(k, j))
+    return PSeq(arr, tup_len(k), 'ref:Event')
+
+
+time_period_of = Function('time_period_of', Val, RealSort())        # utils.time_period(x) for a valid x (contract: C19): seconds >= 0
+
+
+def time_period_result(ex, st, vals):
+    t = time_period_of(to_val(vals[0], st)); st.assume(t >= 0)
+    return ZV('real', t)
+
+
+def super_init(ex, e, st):
+    """super().__init__(*args, **kwargs): AddonAsync/SBlock construction; sets stop_timeout (contract: AddonAsync.__init__), may raise"""
+    me = as_kind(st.env['self'], Ref(), st)
+    ok = st.copy(); ok.havoc_field('stop_timeout'); ex.emit(ok, rec('super.__init__', Val.Obj(me)))
+    ok.assume(ok.readz('stop_timeout', me) >= 0)
+    bad = st.copy(); bad.label('super.__init__:raises')
+    return [(ok, P_NONE), (bad, Raise(PExc('OtherException', val=Val.Obj(fresh('exc', IntSort())), where='callee')))]
+
+
+INIT_FIELDS = ('_on_success', '_on_cancel', '_on_error', '_guard_time', '_coro', '_ctrl_coro', '_f_args', '_f_kwargs', '_stop_data', 'stop_timeout')
+
+
+@contract('OutputAsync.__init__', qual=Q + '__init__', modifies=INIT_FIELDS, self_cls='OutputAsync',
+          params={'f_args': Seq('val'), 'f_kwargs': Seq('val')})
+def _oa_init(c):
+    me = c.z('self')
+    mode = c.v('mode')
+    c.requires('mode_is_a_string', Val.is_S(mode))
+    c.raises('TypeError', unchanged=False, label='bad_argument_names')
+    c.raises('ValueError', unchanged=False, label='bad_mode_or_guard_time')
+    c.raises('OtherException', unchanged=False, label='inherited_constructor_failed')
+    m = lambda *names: Or(*[mode == S_(n) for n in names])
+    c.ensures('mode_selects_the_strategy', c.post('_ctrl_coro', me) == If(m('c', 'cancel'), StringVal('method:_ctrl_cancel'),
+              If(m('w', 'wait'), StringVal('method:_ctrl_wait'), StringVal('method:_ctrl_start'))))
+    c.ensures('mode_is_valid', m('c', 'cancel', 'w', 'wait', 's', 'start'))
+    sd0, sd1 = c.v('stop_data'), c.post('_stop_data', me)
+    c.requires('stop_data_is_none_or_a_dict', Or(sd0 == Val.VNone, Val.is_D(sd0)))
+    c.ensures('stop_data_kept_as_given', If(sd0 == Val.VNone, sd1 == Val.VNone, And(Val.is_D(sd1), dict_c(Val.dk(sd1)) == dict_c(Val.dk(sd0)))))
+    c.ensures('coroutine_kept_as_given', c.post('_coro', me) == c.v('coro'))
+    c.ensures('guard_time', And(c.post('_guard_time', me) >= 0, c.post('_guard_time', me) <= c.post('stop_timeout', me),
+                                Implies(c.v('guard_time') == Val.VNone, c.post('_guard_time', me) == 0)))
+    fa, na = c.arg('f_args').arr, c.arg('f_args').n
+    c.ensures('argument_names_kept', And(c.post('_f_args', me)[1] == na, c.post('_f_args', me)[0] == fa,
+                                         c.post('_f_kwargs', me)[1] == c.arg('f_kwargs').n, c.post('_f_kwargs', me)[0] == c.arg('f_kwargs').arr))
+    for f, p in (('_on_success', 'on_success'), ('_on_cancel', 'on_cancel'), ('_on_error', 'on_error')):
+        k = event_tuple_of(c.v(p))
+        c.ensures(f'{p}_events', And(c.post(f, me)[1] == tup_len(k), ForAll([Int('j!in')], Implies(And(0 <= Int('j!in'), Int('j!in') < tup_len(k)),
+                                                                                                      c.post(f, me)[0][Int('j!in')] == tup_item(k, Int('j!in'))))))
+
+
+def verify_init(run):
+    run.verify('OutputAsync.__init__', cls='OutputAsync',
+               calls={'_check_arg': opaque_helper('_check_arg', 'TypeError'), 'block.event_tuple': opaque_helper('event_tuple', None, event_tuple_result),
+                      'utils.time_period': opaque_helper('time_period', 'ValueError', time_period_result), 'super().__init__': super_init},
+               hooks={'opaque_fstrings': True})
+
+
+# ---- utils.shield_cancel: a cancellation cannot shorten what is awaited ---------------------------------------------------------------------------------
+def ensure_future_call(ex, e, st):
+    t = fresh('future', IntSort()); st = st.copy(); st.ghost['shielded'] = t
+    return [(st, ZV('val', Val.Obj(t)))]
+
+
+def await_shield(ex, node, st):
+    """`await asyncio.shield(task)`: returns the result when the task has finished; raises CancelledError when the waiting task is
+    cancelled (the shielded task keeps running) or when the shielded task itself was cancelled; raises the task's exception"""
+    t = st.ghost['shielded']
+    def env(s):
+        post = s.copy()
+        for f in ('task_done', 'task_cancelled', 'task_exception'): post.havoc_field(f)
+        S, T = View(s), View(post); tx = Int('t!sh')
+        for f in ('task_done', 'task_cancelled', 'task_exception'):
+            new, old = T.whole(f), S.whole(f)
+            T.st.heap[f] = z3.Lambda([tx], If(S.whole('task_done')[tx], old[tx], new[tx]))
+        return post
+    a = env(st); a.assume(a.readz('task_done', t), Not(a.readz('task_cancelled', t)))
+    b = env(st); b.label('shield:cancelled')
+    b.assume(Implies(b.readz('task_done', t), Or(b.readz('task_cancelled', t), BoolVal(True))))
+    d = env(st); d.assume(d.readz('task_done', t)); d.label('shield:failed')
+    return [(a, ZV('val', fresh('result', Val))),
+            (b, Raise(PExc('CancelledError', val=Val.Obj(fresh('exc', IntSort())), where='callee'))),
+            (d, Raise(PExc('OtherException', val=Val.Obj(fresh('exc', IntSort())), where='callee')))]
+
+
+@contract('shield_cancel', qual='edzed.utils.shield_cancel:shield_cancel', modifies=('task_done', 'task_cancelled', 'task_exception'))
+def _shield_cancel(c):
+    done = lambda post: post.f('task_done', post.g('shielded'))
+    c.ensures('returns_only_after_the_awaitable_has_finished', done(c.T))
+    c.raises('CancelledError', unchanged=False, label='pending_cancellation_is_delivered_afterwards', ensures=lambda post, exc: [done(post)])
+    c.raises('OtherException', unchanged=False, label='error_of_the_awaitable', ensures=lambda post, exc: [done(post)])
+
+
+def inv_shield(lc):
+    import asyncio as _aio
+    v = to_val(lc.local('cancel_exc'), lc.st.st)
+    return [('pending_cancellation_is_none_or_a_cancelled_error',
+             Or(v == Val.VNone, And(Val.is_Obj(v), calls.inst_of(Val.ref(v), _aio.CancelledError))))]
+
+
+def verify_shield_cancel(run):
+    run.verify('shield_cancel', ghost={'shielded': Int('shielded0')}, invariants={'while True': inv_shield},
+               calls={'asyncio.ensure_future': ensure_future_call,
+                      'task.done': lambda ex, e, st: [(st, ZV('bool', st.readz('task_done', st.ghost['shielded'])))]},
+               hooks={'await': awaits({'asyncio.shield(task)': await_shield})})
